@@ -268,7 +268,7 @@ def case_table(ctx: Ctx, I: Interp) -> None:
         s = SObj("self", {"HTMLDOC"})
         lp, iv = SObj("lib_prefix", {"STR", "NONE"}), SBool(("param", "include_version"))
         run.__dict__["o"] = (s, lp, iv)
-        return ({ps[0]: s, ps[1]: lp, ps[2]: iv}, s)
+        return ({ps[0]: s, "lib_prefix": lp, "include_version": iv}, s)
 
     seen = set()
     for l in I.run_function(CORE, "HTMLDocument._gen_html_tag_tree", mk, cfg):
@@ -403,12 +403,40 @@ def hoist_obligations(ctx: Ctx, I: Interp) -> None:
         ctx.check(okc, "C11.R3", "the head that is filled is a copy (the user's head object is not modified)", HOIST, f"head object {short(head)}", "the user's own <head> tag is modified in place")
         gd = [e for e in calls if getattr(e.target, "qual", "").endswith(".get_dependencies")]
         ctx.require(len(gd) == 1, "_hoist_head_content: dependencies collected more or less than once")
+        # what is added to the head, in order: append(x) == extend([x]); extend([]) adds nothing
+        class _Add:
+            def __init__(self, kind: str, value: Any, pos: int):
+                self.kind, self.value, self.pos = kind, [value], pos
+        adds: List[Any] = []
+        for pos_, e in enumerate(l.effects):
+            if e.kind != "call" or e.key is not head:
+                continue
+            q_ = getattr(e.target, "qual", "")
+            if q_ == "Tag.append":
+                for v_ in e.value or []:
+                    adds.append(_Add("item", v_, pos_))
+            elif q_ == "Tag.extend" and e.value:
+                v_ = e.value[0]
+                if isinstance(v_, SList) and v_.mode == "map":
+                    adds.append(_Add("map", v_, pos_))
+                elif isinstance(v_, SList) and v_.mode == "concrete":
+                    for i_ in v_.items:
+                        if isinstance(i_, SSplat):
+                            sv_ = i_.value
+                            adds.append(_Add("map" if isinstance(sv_, SList) and sv_.mode == "map" else "other", sv_, pos_))
+                        else:
+                            adds.append(_Add("item", i_, pos_))
+                elif isinstance(v_, (list, tuple)):
+                    for i_ in v_:
+                        adds.append(_Add("item", i_, pos_))
+                else:
+                    adds.append(_Add("other", v_, pos_))
         cands: List[Any] = []
-        for e in calls:
-            if getattr(e.target, "qual", "") == "Tag.extend" and e.value and isinstance(e.value[0], SList) and e.value[0].mode == "map":
-                cands.append(e.value[0].base)
-            if getattr(e.target, "qual", "") == "Tag.append" and e.value and isinstance(e.value[0], SNew) and len(e.value[0].args) > 1:
-                lt0 = listing_tokens(e.value[0].args[1], l)
+        for a_ in adds:
+            if a_.kind == "map":
+                cands.append(a_.value[0].base)
+            if a_.kind == "item" and isinstance(a_.value[0], SNew) and len(a_.value[0].args) > 1:
+                lt0 = listing_tokens(a_.value[0].args[1], l)
                 if lt0 is not None:
                     cands.append(lt0[2])
         deps = [o for o in cands if _q(_call_of(o)).endswith(".get_dependencies") and (_call_of(o) or {}).get("recv") is gd[0].key]
@@ -422,8 +450,10 @@ def hoist_obligations(ctx: Ctx, I: Interp) -> None:
         for a, v in l.atoms:
             if isinstance(a, tuple) and a[0] == "len-cmp" and deps and a[1] == getattr(deps[0], "uid", None):
                 nonempty = (a[2], a[3], v)
-        listing = [e for e in calls if getattr(e.target, "qual", "") == "Tag.append" and e.key is head and e.value and isinstance(e.value[0], SNew) and e.value[0].args[:1] == ("script",)]
-        ext = [e for e in calls if getattr(e.target, "qual", "") == "Tag.extend" and e.key is head]
+        listing = [a_ for a_ in adds if a_.kind == "item" and isinstance(a_.value[0], SNew) and a_.value[0].args[:1] == ("script",)]
+        ext = [a_ for a_ in adds if a_.kind in ("map", "other")]
+        stray = [a_ for a_ in adds if a_ not in listing and a_ not in ext]
+        ctx.check(not stray, "C11.R3", "nothing else is added to the head", HOIST, f"also adds {[short(a_.value[0]) for a_ in stray][:3]}", "something besides the listing and the dependency markup is added to the head")
         if listing:
             t = listing[0].value[0]
             lt = listing_tokens(t.args[1], l) if len(t.args) > 1 else None
@@ -435,6 +465,9 @@ def hoist_obligations(ctx: Ctx, I: Interp) -> None:
                   f"listing={bool(listing)} under {nonempty}", "the dependency listing is emitted for an empty list or omitted for a non-empty one")
         okx = len(ext) == 1 and ext[0].value and isinstance(ext[0].value[0], SList) and ext[0].value[0].mode == "map" and deps and ext[0].value[0].base is deps[0] \
             and not ext[0].value[0].cond
+        if not ext and not listing and _known_empty(l, gd[0]):
+            ctx.ok("C11.R3", "with no dependencies nothing is added after the charset meta")
+            continue
         if ctx.check(bool(okx), "C11.R3", "head.extend([d.as_html_tags(...) for d in deps]) over the same resolved list, in order", HOIST,
                      f"extend {[short(e.value[0]) for e in ext]}", "the hoisted dependency markup is not produced from every resolved dependency in order"):
             m = ext[0].value[0]
@@ -448,10 +481,30 @@ def hoist_obligations(ctx: Ctx, I: Interp) -> None:
                       "each dependency is rendered with as_html_tags(lib_prefix=lib_prefix, include_version=include_version)", HOIST,
                       f"as_html_tags kwargs { {k: short(v) for k, v in kwc.items()} }", "lib_prefix / include_version are not forwarded to as_html_tags: URLs do not match the copied files",
                       witness="HTMLDocument(dep).render(lib_prefix='x', include_version=False)")
-        order = [e for e in calls if e in meta or e in listing or e in ext]
-        ctx.check(order == meta[:1] + listing[:1] + ext[:1], "C11.R3", "order: meta charset, then the listing, then the dependency markup", HOIST,
-                  f"order {[getattr(e.target, 'qual', '') for e in order]}", "the head is filled in a different order")
+        mpos = l.effects.index(meta[0]) if meta else -1
+        seq = [("listing" if a_ in listing else "markup") for a_ in adds]
+        ok_order = all(a_.pos > mpos for a_ in adds) and seq == ["listing"] * len(listing[:1]) + ["markup"] * len(ext[:1])
+        ctx.check(ok_order, "C11.R3", "order: meta charset, then the listing, then the dependency markup", HOIST,
+                  f"order meta@{mpos} then {seq}", "the head is filled in a different order")
     ctx.min_count("_hoist_head_content returning paths", n, 2)
+
+
+def _known_empty(l: Any, gd: Any) -> bool:
+    """The path has decided that the collected dependency list is empty (len(deps) == 0 / not deps)."""
+    pool = list(_iter_objs(l)) + [v for v in (getattr(l, "env", None) or {}).values()]
+    res = [o for o in pool if isinstance(o, SObj) and (_call_of(o) or {}).get("recv") is gd.key and _q(_call_of(o)).endswith(".get_dependencies")]
+    uids = {o.uid for o in res}
+    for a, v in l.atoms:
+        if not isinstance(a, tuple):
+            continue
+        if a[0] == "len-cmp" and a[1] in uids and not _holds((a[2], a[3], v)) and (a[2], a[3]) in ((">", 0), ("!=", 0), (">=", 1)):
+            return True
+        if a[0] == "len-cmp" and a[1] in uids and (a[2], a[3]) == ("==", 0) and v is True:
+            return True
+        if a[0] == "nonempty" and a[1] in uids and v is False:
+            return True
+    cnt = [str(v) for a, v in l.atoms if isinstance(a, tuple) and a[0] == "count" and a[1] in uids]
+    return bool(cnt) and all(c == "n=0" for c in cnt)
 
 
 def _head_search_by_next(ctx: Ctx, I: Interp, mk: Any) -> int:
